@@ -371,6 +371,19 @@ impl RadixSort {
             return Ok(());
         }
 
+        // Skip the bytes that all strings have in common from `depth` on.  Without this every
+        // common byte costs one recursion level (and 257 buckets), so two equal strings of
+        // ~100 KB overflowed the stack; now every level splits its input and the recursion
+        // depth is bounded by the number of strings.
+        let depth = {
+            let first = &data[0];
+            let mut d = depth;
+            while d < first.len() && data.iter().all(|s| s.len() > d && s[d] == first[d]) {
+                d += 1;
+            }
+            d
+        };
+
         // Most Significant Digit radix sort for byte strings
         let mut buckets: Vec<Vec<Vec<u8>>> = vec![Vec::new(); 257]; // 256 bytes + end marker
 
